@@ -9,7 +9,9 @@
 typedef struct fiber_barrier {
   uint32_t count;
   _Atomic uint64_t counter;
-  mpsc_fifo_t waiters;
+  // waiters of consecutive rounds use alternating lists: a fiber released from
+  // round k may re-enter round k+1 before a round-k straggler has enqueued
+  mpsc_fifo_t waiters[2];
 } fiber_barrier_t;
 
 #define FIBER_BARRIER_SERIAL_FIBER (1)
